@@ -150,6 +150,7 @@ type Machine struct {
 	lastSnapDiff  string
 	panicMsg      string
 	kvConflicts    int
+	knownConds     map[string]bool
 	rescued        int
 	pendingCommits []pendingCommit
 	crashFn        *FuncVal
@@ -212,6 +213,17 @@ func (m *Machine) assertPC(c *Term) {
 	if c.isTrue() {
 		return
 	}
+	if m.knownConds == nil {
+		m.knownConds = map[string]bool{}
+	}
+	m.knownConds[c.String()] = true
+	if c.op == "not" {
+		m.knownConds[c.args[0].String()] = false
+	} else if c.op == "and" {
+		for _, a := range c.args {
+			m.knownConds[a.String()] = true
+		}
+	}
 	m.pcs = append(m.pcs, c)
 	m.solver.send("(assert " + c.String() + ")")
 }
@@ -271,11 +283,17 @@ func (m *Machine) branch(c *Term) bool {
 	if c.isConst() {
 		return c.bv
 	}
+	if v, ok := m.knownConds[c.String()]; ok {
+		return v
+	}
 	i := len(m.trace)
 	if i < len(m.prefix) {
 		d := m.prefix[i]
 		m.trace = append(m.trace, d)
 		out := d.Alt == 0
+		if d.N == 1 {
+			m.knownConds[c.String()] = out
+		}
 		if d.N == 2 {
 			if out {
 				m.assertPC(c)
@@ -291,11 +309,13 @@ func (m *Machine) branch(c *Term) bool {
 	}
 	if rt == "unsat" {
 		m.trace = append(m.trace, Decision{Alt: 1, N: 1, Kind: "br"})
+		m.knownConds[c.String()] = false
 		return false
 	}
 	rf := m.feasible(tNot(c))
 	if rf == "unsat" {
 		m.trace = append(m.trace, Decision{Alt: 0, N: 1, Kind: "br"})
+		m.knownConds[c.String()] = true
 		return true
 	}
 	m.nStates++
